@@ -128,7 +128,7 @@ func (c *otApplyContext) applyGPOS(table tables.GPOSLookup) bool {
 	buffer := c.buffer
 	glyphID := buffer.cur(0).Glyph
 	glyphPos := buffer.curPos(0)
-	index, ok := table.Cov().Index(gID(glyphID))
+	index, ok := coverageIndex(table.Cov(), gID(glyphID))
 	if !ok {
 		return false
 	}
@@ -314,6 +314,9 @@ func (c *otApplyContext) applyGPOSPair2(inner tables.PairPosData2) bool {
 	skippyIter := &c.iterInput
 
 	glyphID := buffer.cur(0).Glyph
+	if inner.ClassDef1 == nil || inner.ClassDef2 == nil {
+		return false
+	}
 	class2, ok2 := inner.ClassDef2.Class(gID(buffer.Info[skippyIter.idx].Glyph))
 	if !ok2 {
 		buffer.unsafeToConcat(buffer.idx, skippyIter.idx+1)
@@ -553,7 +556,7 @@ func (c *otApplyContext) applyGPOSMarkToBase(data tables.MarkBasePos, markIndex 
 				buffer.Info[idx].getLigID() != buffer.Info[idx-1].getLigID() ||
 				buffer.Info[idx].getLigComp() != buffer.Info[idx-1].getLigComp()+1
 
-			_, covered := data.BaseCoverage.Index(gID(buffer.Info[idx].Glyph))
+			_, covered := coverageIndex(data.BaseCoverage, gID(buffer.Info[idx].Glyph))
 			if !accept && !covered {
 				ma = skip
 			}
@@ -571,7 +574,7 @@ func (c *otApplyContext) applyGPOSMarkToBase(data tables.MarkBasePos, markIndex 
 	}
 
 	idx := c.lastBase
-	baseIndex, ok := data.BaseCoverage.Index(gID(buffer.Info[idx].Glyph))
+	baseIndex, ok := coverageIndex(data.BaseCoverage, gID(buffer.Info[idx].Glyph))
 	if !ok {
 		buffer.unsafeToConcatFromOutbuffer(idx, buffer.idx+1)
 		return false
@@ -605,7 +608,7 @@ func (c *otApplyContext) applyGPOSMarkToLigature(data tables.MarkLigPos, markInd
 	}
 
 	idx := c.lastBase
-	ligIndex, ok := data.LigatureCoverage.Index(gID(buffer.Info[idx].Glyph))
+	ligIndex, ok := coverageIndex(data.LigatureCoverage, gID(buffer.Info[idx].Glyph))
 	if !ok {
 		c.buffer.unsafeToConcatFromOutbuffer(idx, c.buffer.idx+1)
 		return false
@@ -674,7 +677,7 @@ func (c *otApplyContext) applyGPOSMarkToMark(data tables.MarkMarkPos, mark1Index
 	return false
 
 good:
-	mark2Index, ok := data.Mark2Coverage.Index(gID(buffer.Info[j].Glyph))
+	mark2Index, ok := coverageIndex(data.Mark2Coverage, gID(buffer.Info[j].Glyph))
 	if !ok {
 		return false
 	}
